@@ -57,7 +57,63 @@ func (s CLIStep) summary() any { return s }
 
 // ---------------------------------------------------------------- generation
 
+// genCLITrunc: the truncation sweep. Run i of the batch takes object i/64 of a
+// fixed list of corpus objects and cuts its PEM, DER and base64 encodings at
+// every byte offset = i mod 64 (the writer "dies" after k bytes), alternately
+// through a file and through stdin. Every cut must fail closed or - where the
+// prefix still decodes (PEM with its END line cut is not such a case, DER with
+// trailing bytes cut is not either) - agree with the library.
+func genCLITrunc(seed uint64, prop, tier, mode string) *Plan {
+	raw := 0
+	if k := strings.Index(mode, ":"); k >= 0 {
+		fmt.Sscanf(mode[k+1:], "%d", &raw)
+	}
+	slice, objNo := raw%64, raw/64
+	g := newRNG(seed)
+	p := &Plan{Engine: "cli", Prop: prop, Seed: seed, Tier: tier, Knobs: map[string]any{"worker_mode": mode, "object_no": objNo, "slice": slice}}
+	idx := corpusIndex()
+	var o *ObjSpec
+	for t := 0; t < len(idx) && o == nil; t++ {
+		o = loadCorpusFile(idx[(objNo*37+11+t)%len(idx)])
+		if o != nil && o.Kind == KOCSP {
+			o = nil
+		}
+	}
+	if o == nil {
+		die(2, "truncation sweep: no object")
+	}
+	p.Objects = []ObjSpec{*o}
+	encs := []string{"pem", "der", "base64"}
+	if o.Kind == KCRL {
+		encs = []string{"pem"}
+	}
+	n := 0
+	for _, enc := range encs {
+		full := encodeObj(o, enc, "")
+		for k := slice; k < len(full); k += 64 {
+			st := CLIStep{Cfg: -1, Format: enc}
+			in := CLIInput{Obj: 0, Enc: enc, Channel: "file", Fault: "truncate", FaultArg: k, Suffix: map[string]string{"pem": ".pem", "der": ".der", "base64": ".b64"}[enc]}
+			if n%2 == 1 {
+				in.Channel, in.Suffix = "stdin", ""
+				if n%4 == 3 {
+					in.Chunks = []int{g.Range(1, 700)}
+				}
+			}
+			if n%7 == 0 {
+				st.Summary = true
+			}
+			st.Inputs = []CLIInput{in}
+			p.Steps = append(p.Steps, st)
+			n++
+		}
+	}
+	return p
+}
+
 func genCLI(seed uint64, prop, tier, mode string) *Plan {
+	if strings.HasPrefix(mode, "truncsweep") {
+		return genCLITrunc(seed, prop, tier, mode)
+	}
 	g := newRNG(seed)
 	meta := readMetaTable()
 	idx := corpusIndex()
